@@ -578,7 +578,21 @@ pub fn run(tier: &str) -> Report {
             }
         }
     }
-    let n = n + n_edge + n_dn;
+    // ---- case-insensitivity is a property of each character: a letter matches itself in the other case wherever it stands,
+    // and `?` matches one character whatever its lowercase form looks like
+    let (mut n_ci, mut f_ci) = (0u64, vec![]);
+    for (p, v) in [("\u{c9}*", "\u{e9}a"), ("\u{391}\u{3a3}*", "\u{391}\u{3a3}\u{391}"), ("*\u{3a3}", "\u{391}\u{3a3}"), ("a?b", "a\u{130}b"), ("?", "\u{130}")] {
+        n_ci += 1;
+        let raw: Raw<Value> = Raw::new(&json!({"sender": "@o:s", "content": {"other": v}})).unwrap();
+        let flat = FlattenedJson::from_raw(&raw);
+        let cond = PushCondition::EventMatch { key: "content.other".to_owned(), pattern: p.to_owned() };
+        match std::panic::catch_unwind(std::panic::AssertUnwindSafe(|| cond.applies(&flat, &ctx()))) {
+            Err(_) => fail(&mut f_panic, json!({"pattern": p, "value": v, "observed": "panic"})),
+            Ok(false) => fail(&mut f_ci, json!({"key": "content.other", "pattern": p, "value": v, "observed": false, "expected": true})),
+            Ok(true) => {}
+        }
+    }
+    let n = n + n_edge + n_dn + n_ci;
     Report {
         bound: format!(
             "glob: {} patterns (all of length 1..3 over {{a,B,*,?,space,é}} + {} longer) x {} values (all of length 0..{} over {:?} + longer cases) x {{content.body, other key}}; flattening: {} objects with <= 2 entries over 5 keys x 14 values, 10 probe scalars per path, also under a top-level empty key; contains_display_name: 12 display names (incl. ones with * and ?) x 25 bodies; room_member_count: 6 operators x bounds 0..5 x member counts 0..7; rule selection: 7 per-kind configurations ^ 5 kinds x own/other sender",
@@ -596,6 +610,7 @@ pub fn run(tier: &str) -> Report {
             ("flattened_paths_and_scalar_values_match_the_spec", nf, f_paths),
             ("array_contains_sees_every_scalar_element", nf, f_contains),
             ("display_name_is_matched_literally_on_word_boundaries", n_dn, f_dn),
+            ("case_insensitive_matching_is_per_character", n_ci, f_ci),
             ("room_member_count_comparisons_match_the_spec", nm, f_count),
             ("first_enabled_matching_rule_in_kind_and_list_order", ns, f_sel),
             ("pattern_matching_and_flattening_never_panic", n + nf, f_panic),
